@@ -243,6 +243,15 @@ def check(pid, tier, seed):
         yruns.update(common.run_harness(exe, ys))
         ycfgs.update(cf)
 
+    # torn executions (see concrouter.py): mixed programs on the access-instrumented build with a share of the plain
+    # memory accesses as scheduling points
+    from components import races
+    tcount = {"quick": 600, "thorough": 20000}[tier]
+    ts, tcf = y_scripts("%s-torn" % seed, tcount, "mixed")
+    ts = "\n".join((l.replace("X m", "X a", 1) + " accy=%d" % (500 + 700 * (k % 5))) if l.startswith("X m") else l for k, l in enumerate(ts.split("\n")))
+    yruns.update(common.run_harness(races._race_build("resource_race", "resource/resource_harness.cpp", REPO_SRC), ts))
+    ycfgs.update({"a" + x[1:]: c + " accy=on" for x, c in tcf.items()})
+
     execs = {}
     src = {}
     for xid, recs in xres.items():
